@@ -49,11 +49,11 @@ theorem after_load {kind : WKind} (K : Bool → PAct) (E : PAct)
   · exact hE
 
 /-- `for _ in 0..n { yield_now_std(); let v = load(Relaxed); if v < LOCKED { fence; return … } }`. -/
-theorem spin_for_yield_load {kind : WKind} (K : Bool → PAct) (E : PAct)
+theorem spin_for_yield_load {kind : WKind} (K : Bool → PAct) (E : Unit → PAct)
     (hK : ∀ v b, v.isFinal = true → WConf o0 Q (K (St.toNat v == 0)) kind (.done v b))
-    (hE : WConf o0 Q E kind .spin) (n : Nat) :
+    (hE : WConf o0 Q (E ()) kind .spin) (n : Nat) :
     WConf o0 Q (forN n (fun next_ => .eff .yieldStd (.load .relaxed fun v2 => let v_v := v2;
-      (if (decide (v_v < 2)) then .fence .acquire (K (v_v == 0)) else next_))) E) kind .spin := by
+      (if (decide (v_v < 2)) then .fence .acquire (K (v_v == 0)) else next_ ()))) E) kind .spin := by
   induction n with
   | zero => exact hE
   | succ n ih =>
@@ -64,11 +64,11 @@ theorem spin_for_yield_load {kind : WKind} (K : Bool → PAct) (E : PAct)
     exact after_load K _ hK ih s
 
 /-- `for _ in 0..n { let v = load(Relaxed); if v < LOCKED { fence; return … }; yield_now() }`. -/
-theorem spin_for_load_yield {kind : WKind} (K : Bool → PAct) (E : PAct)
+theorem spin_for_load_yield {kind : WKind} (K : Bool → PAct) (E : Unit → PAct)
     (hK : ∀ v b, v.isFinal = true → WConf o0 Q (K (St.toNat v == 0)) kind (.done v b))
-    (hE : WConf o0 Q E kind .spin) (n : Nat) :
+    (hE : WConf o0 Q (E ()) kind .spin) (n : Nat) :
     WConf o0 Q (forN n (fun next_ => .load .relaxed fun v2 => let v_v := v2;
-      (if (decide (v_v < 2)) then .fence .acquire (K (v_v == 0)) else .eff .yieldSpin (next_))) E) kind .spin := by
+      (if (decide (v_v < 2)) then .fence .acquire (K (v_v == 0)) else .eff .yieldSpin (next_ ()))) E) kind .spin := by
   induction n with
   | zero => exact hE
   | succ n ih =>
@@ -306,14 +306,16 @@ def condB (K next : PAct) : PAct :=
 /-- The body of the outer loop of `spin_cond` (parallelism > 1), with the constants of the source:
     one `yield_now()` round, no `yield_now_std()` round, two `sleep(0)` rounds, then the back-off. -/
 def outerBody (K : PAct) : Nat → (Nat → PAct) → PAct := fun sp continue_ =>
-  .eff .yieldSpin (forN sp (condB K) (.eff .sleep (forN sp (condB K) (.eff .sleep (forN sp (condB K)
-    (if decide (sp < (1 <<< 30)) then .eff .sleep (continue_ (sp <<< 1)) else .eff .sleep (continue_ sp)))))))
+  .eff .yieldSpin (forN sp (fun next_ => condB K (next_ ())) fun _ =>
+    .eff .sleep (forN sp (fun next_ => condB K (next_ ())) fun _ =>
+      .eff .sleep (forN sp (fun next_ => condB K (next_ ())) fun _ =>
+        (if decide (sp < (1 <<< 30)) then .eff .sleep (continue_ (sp <<< 1)) else .eff .sleep (continue_ sp)))))
 
 /-- The generated `lock_no_inline` = `spin_cond(|| try_lock())`, with its `for` loops of constant length unrolled. -/
 theorem lock_no_inline_eq (fuel : Nat) (k : Unit → PAct) :
     Gen.RawMutexLock_lock_no_inline fuel k =
       .askB .parEq1 fun b1 => (if b1 then loopN fuel (fun _u continue_ => condB (k ()) (.eff .yieldStd (continue_ ()))) ()
-        else forN 4 (fun next_ => condB (k ()) (.eff .spinHint next_)) (loopN fuel (outerBody (k ())) 8)) := rfl
+        else forN 4 (fun next_ => condB (k ()) (.eff .spinHint (next_ ()))) (fun _ => loopN fuel (outerBody (k ())) 8)) := rfl
 
 /-- Parallelism 1: `while !cond() { yield_now_std() }`. -/
 theorem par1_loop (K : PAct) (hK : MConf mo0 mc0 par1 Q K .inCS) (fuel : Nat) :
@@ -331,9 +333,9 @@ theorem par1_loop (K : PAct) (hK : MConf mo0 mc0 par1 Q K .inCS) (fuel : Nat) :
 def shortPos (i : Nat) : Pc := if i < 4 then .spin (.shortCond i) else .spin (.yieldNow 8)
 
 /-- The short phase: `for _ in 0..SPINS/2 { if cond() { return }; spin_hint() }`. -/
-theorem short_phase (K rest : PAct) (hK : MConf mo0 mc0 par1 Q K .inCS)
-    (hrest : MConf mo0 mc0 par1 Q rest (.spin (.yieldNow 8))) :
-    ∀ n i, i + n = 4 → MConf mo0 mc0 par1 Q (forN n (fun next_ => condB K (.eff .spinHint next_)) rest) (shortPos i) := by
+theorem short_phase (K : PAct) (rest : Unit → PAct) (hK : MConf mo0 mc0 par1 Q K .inCS)
+    (hrest : MConf mo0 mc0 par1 Q (rest ()) (.spin (.yieldNow 8))) :
+    ∀ n i, i + n = 4 → MConf mo0 mc0 par1 Q (forN n (fun next_ => condB K (.eff .spinHint (next_ ()))) rest) (shortPos i) := by
   intro n
   induction n with
   | zero =>
@@ -357,9 +359,9 @@ theorem short_phase (K rest : PAct) (hK : MConf mo0 mc0 par1 Q K .inCS)
       · rw [if_neg h] at this ⊢; exact this
 
 /-- `for _ in 0..spins { if cond() { return } }` of the spinning round, from its `j`-th `cond()`. -/
-theorem condA_for (sp : Nat) (K rest : PAct) (hK : MConf mo0 mc0 par1 Q K .inCS)
-    (hrest : MConf mo0 mc0 par1 Q rest (.spin (.sleepZ sp 0))) :
-    ∀ n j, j + n = sp → MConf mo0 mc0 par1 Q (forN n (condB K) rest)
+theorem condA_for (sp : Nat) (K : PAct) (rest : Unit → PAct) (hK : MConf mo0 mc0 par1 Q K .inCS)
+    (hrest : MConf mo0 mc0 par1 Q (rest ()) (.spin (.sleepZ sp 0))) :
+    ∀ n j, j + n = sp → MConf mo0 mc0 par1 Q (forN n (fun next_ => condB K (next_ ())) rest)
       (if j < sp then .spin (.condA sp j) else .spin (.sleepZ sp 0)) := by
   intro n
   induction n with
@@ -380,9 +382,9 @@ theorem condA_for (sp : Nat) (K rest : PAct) (hK : MConf mo0 mc0 par1 Q K .inCS)
       · rw [if_neg h] at this ⊢; exact this
 
 /-- … and of the `z`-th `sleep(0)` round. -/
-theorem condZ_for (sp z : Nat) (K rest : PAct) (hK : MConf mo0 mc0 par1 Q K .inCS)
-    (hrest : MConf mo0 mc0 par1 Q rest (.spin (if z + 1 < 2 then .sleepZ sp (z + 1) else .backoff sp))) :
-    ∀ n j, j + n = sp → MConf mo0 mc0 par1 Q (forN n (condB K) rest)
+theorem condZ_for (sp z : Nat) (K : PAct) (rest : Unit → PAct) (hK : MConf mo0 mc0 par1 Q K .inCS)
+    (hrest : MConf mo0 mc0 par1 Q (rest ()) (.spin (if z + 1 < 2 then .sleepZ sp (z + 1) else .backoff sp))) :
+    ∀ n j, j + n = sp → MConf mo0 mc0 par1 Q (forN n (fun next_ => condB K (next_ ())) rest)
       (if j < sp then .spin (.condZ sp z j) else .spin (if z + 1 < 2 then .sleepZ sp (z + 1) else .backoff sp)) := by
   intro n
   induction n with
@@ -402,15 +404,15 @@ theorem condZ_for (sp z : Nat) (K rest : PAct) (hK : MConf mo0 mc0 par1 Q K .inC
       · rw [if_pos h] at this ⊢; exact this
       · rw [if_neg h] at this ⊢; exact this
 
-theorem condA_for0 (sp : Nat) (hsp : 0 < sp) (K rest : PAct) (hK : MConf mo0 mc0 par1 Q K .inCS)
-    (hrest : MConf mo0 mc0 par1 Q rest (.spin (.sleepZ sp 0))) :
-    MConf mo0 mc0 par1 Q (forN sp (condB K) rest) (.spin (.condA sp 0)) := by
+theorem condA_for0 (sp : Nat) (hsp : 0 < sp) (K : PAct) (rest : Unit → PAct) (hK : MConf mo0 mc0 par1 Q K .inCS)
+    (hrest : MConf mo0 mc0 par1 Q (rest ()) (.spin (.sleepZ sp 0))) :
+    MConf mo0 mc0 par1 Q (forN sp (fun next_ => condB K (next_ ())) rest) (.spin (.condA sp 0)) := by
   have := condA_for sp K rest hK hrest sp 0 (by omega)
   rwa [if_pos hsp] at this
 
-theorem condZ_for0 (sp z : Nat) (hsp : 0 < sp) (K rest : PAct) (hK : MConf mo0 mc0 par1 Q K .inCS)
-    (hrest : MConf mo0 mc0 par1 Q rest (.spin (if z + 1 < 2 then .sleepZ sp (z + 1) else .backoff sp))) :
-    MConf mo0 mc0 par1 Q (forN sp (condB K) rest) (.spin (.condZ sp z 0)) := by
+theorem condZ_for0 (sp z : Nat) (hsp : 0 < sp) (K : PAct) (rest : Unit → PAct) (hK : MConf mo0 mc0 par1 Q K .inCS)
+    (hrest : MConf mo0 mc0 par1 Q (rest ()) (.spin (if z + 1 < 2 then .sleepZ sp (z + 1) else .backoff sp))) :
+    MConf mo0 mc0 par1 Q (forN sp (fun next_ => condB K (next_ ())) rest) (.spin (.condZ sp z 0)) := by
   have := condZ_for sp z K rest hK hrest sp 0 (by omega)
   rwa [if_pos hsp] at this
 
